@@ -36,6 +36,39 @@ def items(rep):
     return out, n_pairs
 
 
+def structure_never_fails(rep):
+    """the corollary, exercised: an object built from a request / response class out of a schema-valid instance
+    (all properties, only the required ones, falsy values: 0, "", false, []) and serialised the way call() and
+    route_message() do it passes validation -- it can fail on values, never on structure"""
+    import random
+    from ocpp.charge_point import remove_nones, serialize_as_dict, snake_to_camel_case
+    from harness import gen_dispatch as GD
+    from harness import gen_instances as G
+    from harness import impl_net as N
+    from harness import verdict as V
+    g = GD.Gen("quick", 0)
+    for (version, pkg, mtype, action, name) in G.message_index():
+        insts = [i for i in g.instances(version, action, "req" if mtype == "Call" else "resp") if not i[2] and isinstance(i[1], dict)]
+        for (kind, inst, _) in insts[:5]:
+            snake = GD.snake(inst)
+            try:
+                obj = (N.make_request if mtype == "Call" else N.make_result)(version, action, snake, False)
+            except TypeError as e:
+                rep.violation("C11:unconstructible:%s:%s:%s" % (version, mtype, action),
+                              "a schema-valid %s %s (%s) cannot be built as its class: %s" % (action, mtype, kind, e),
+                              {"kind": "structure", "version": version, "mtype": mtype, "action": action, "instance": inst})
+                continue
+            wire = remove_nones(snake_to_camel_case(serialize_as_dict(obj)))
+            v = V.impl_verdict(version, mtype, action, wire)
+            rep.count("struct:%s:%s:%s:%s" % (version, mtype, action, kind))
+            if v[0] != "accept":
+                rep.violation("C11:structure:%s:%s:%s:%s" % (version, mtype, action, v[1]),
+                              "the %s object built from a schema-valid instance (%s) is written as %r and fails validation with %s" % (
+                                  action, kind, wire, v[1]),
+                              {"kind": "structure", "version": version, "mtype": mtype, "action": action, "instance": inst,
+                               "wire": wire, "verdict": v[:2]})
+
+
 def body(rep, support_ok):
     found, n_pairs = items(rep)
     import dataclasses
@@ -57,6 +90,8 @@ def body(rep, support_ok):
             key = "%s:%s:%s" % (PROP, ver, ":".join(map(str, p)))
         rep.violation(key, "%s (OCPP %s)" % (" ".join(map(str, p)), ver),
                       {"kind": "table-item", "version": ver, "item": list(p), "theorem": "Props/%s.v" % PROP})
+    if PROP == "C11":
+        structure_never_fails(rep)
     rep.sample({"item": "v201 call_result.UpdateFirmware.status : UpdateFirmwareStatusEnumType vs schema enum"})
     rep.sample({"item": "v16 call.LogStatusNotification.request_id default None vs schema required ['status']"})
     # translator tie: the problem lists the Coq walk computes from the translated tables
